@@ -195,6 +195,10 @@ CHECKS = {
        "(on a Synced store, after ANY sequence of deliveries of arbitrary bytes, syncs, discards, allowances and power losses, the first `durable` records of the chain — what PrecommittedAlh() reports to the primary, what ReplicateTx returned for, what WaitForTx lets pass — are committed or FSYNCED live tx-log records, committed ≤ durable ≤ in-memory precommitted; a discard has to recede the watermark for this), wait_passes_iff_within_watermark, "
        "restart_after_full_sync_keeps_ack_on_disk, acked_prefix_survives_crash_partial (a power loss keeps the acknowledged prefix when no discarded record lies in the fsynced log), replica_reports_within_held (id-level protocol, all interleavings); refuted for the code as written by "
        "restart_marks_unfsynced_precommit_durable (Close flushes, Open marks everything re-loaded durable) and discarded_record_shadows_acked_after_crash (Open re-loads the discarded tx in place of the acknowledged one). "
+       "Several exporters on one primary (Store/ExportConc.lean): exports_of_same_tx_equal + export_determines_tx (the writer is a function of the committed tx alone, and its bytes determine entries, VALUES, flag and header), "
+       "concurrent_exports_match_sequential (any interleaving of any number of exporters with further commits: every answer = the sequential answer on the final history), "
+       "scratch_buffer_export_delivers_own_values (small-step model of the entry loop of ExportTx — Lock, readValueAt into the store-wide scratch buffer _valBs, buf.Write, Unlock — any number of calls, any schedule: a call only ever writes the values of ITS transaction; mutual exclusion), "
+       "refuted for the same loop with the Unlock in front of the copy by early_unlock_exports_foreign_value. "
        "Tie: two real embedded stores under random histories (tx metadata, kv metadata, empty values, many entries, v0/v1, embedded values, values truncated by TruncateUptoTx) "
        "and delivery schedules (in order, concurrent out-of-order within MaxActiveTransactions, duplicates, future ids, retries, close/reopen, discards, external allowance, Synced with "
        "explicit Sync), an alteration stream over every byte class of the export (~70 classes, flips, coherent re-encodings, cuts, trailer variants), every call replayed on the Lean "
@@ -206,12 +210,17 @@ CHECKS = {
        "acknowledgement durability (c07ack.go): families of FORKED primaries, a Synced replica on the crash-simulating file system (internal/crashfs, syncer off), ReplicateTx left pending on goroutines / Sync / AllowCommitUpto / "
        "DiscardPrecommittedTxsSince + switch of primary / Close+Open / power loss in scripted and random order; after every step every acknowledgement (PrecommittedAlh(), returned ReplicateTx calls, passing WaitForTx) must lie between committed and in-memory "
        "precommitted, name the delivered tx, have its record in the FSYNCED part of the tx log, and be held (same Alh, same export bytes) by a store opened on the power-loss image; the same steps run on the disk model (watermark value, its Alh, the wait outcome, the state after a crash). "
+       "Concurrent exporters (c07cx.go): 2..12 exporter goroutines (own Tx holder, with/without skipIntegrityCheck, Gosched/sleeps drawn from the seed) export overlapping and different tx ids of ONE real primary "
+       "(catch-up sweeps, windows, hot ids, random ids, newest ids) while committers append transactions with values of every size around the scratch-buffer boundary (1..4096, 4097+, empty); after TruncateUptoTx again (by-digest exports, the 'partially truncated' error exits). "
+       "Oracle: the sequential export parses (own parser) to the committed header/keys/metadata/values, EVERY concurrent answer is byte-identical to the sequential one, each exporter's stream fed to a replica of its own reproduces ids, Alh, entries and values; progress watchdog (C07:ExportTx:hang); "
+       "tie: the committed tx through the Lean writer (c15 xp.enc) must give every distinct byte string handed out, which the Lean parser/writer read back (c07 parse, c07 xrt). The evidence reports export_max_in_flight_per_store (1 before this part existed; inconclusive below 2). "
        "Liveness: every call of the code under test runs under a watchdog (20 s): a call that does not return is the oracle failure C07:<api>:hang with the operation trace as replay and abandons the scenario. The transient back-pressure answer ErrMaxConcurrencyLimitExceeded (Tx holder pool empty, timing dependent) is repeated by the harness and only counted: it is neither compared with the model nor a rejection.",
   note=TB + " Modelled rather than verified: aht.RootAt is replaced by its specification mth (C08 aht_root); one ReplicateTx call is one atomic step (a call that must wait for tx ID-1 is the "
        "outcome 'blocked'; concurrent deliveries are linearised by the harness); entriesByKey is keyed by key (Go: sha256(key)); the pooled Tx's BlRoot is modelled for sequential use of the pool (proof/read calls on the replica between deliveries are not tracked); stale bytes after the re-loaded chain are assumed not to parse as a chaining record; the ack protocol "
        "is modelled on ids only (Alh comparisons of ExportTxByID are in the byte model / oracle); gRPC streaming and the TxReplicator goroutines (pkg/replication) are not modelled: the harness plays "
        "fetchNextTx by hand. Crash model of the disk theorems: fsync granularity = whole tx-log records, an fsync happens only inside sync() (true for the default buffer/file sizes; the harness also runs small buffers/chunks, oracle only); value logs and the AHT are not in the disk model (the oracle reads values back from the crash image). "
-       "Known findings (14 signatures, all confirmed on the real code) in known_findings.json; the ReplicateTx framing panics (F3) are repaired in /repo (93a231d) and their signature stays armed.",
+       "Several exporters: model 1 takes one ExportTx call as one atomic read of the committed history (a specification; the harness compares the real concurrent answers with it), model 2 covers the scratch buffer and its mutex only (statement granularity; the value cache, the value-log handles and the Tx holder pool are exercised by the harness, not modelled). "
+       "Known findings (16 signatures, all confirmed on the real code) in known_findings.json; the ReplicateTx framing panics (F3) are repaired in /repo (93a231d) and their signature stays armed.",
   technique="Lean 4 proof (invariants over operation sequences and interleavings, collision-explicit hash binding) + differential correspondence on real stores/databases with schedule and alteration streams",
   design="7/C07"),
  "C02": dict(
